@@ -6,11 +6,14 @@
 (*   clean                                                                  *)
 (* as they execute on asyncio (CPython 3.12.1).                             *)
 (*                                                                         *)
-(* Scheduling is cooperative: `cur` is the task that owns the CPU; it runs *)
-(* small steps until it parks (awaits an unfinished future) or ends; only  *)
-(* when cur = 0 the loop picks another runnable task (any one: a superset  *)
-(* of the FIFO ready queue) or the environment acts.  Properties are       *)
-(* stated over observation variables (ConnPoolProps).                      *)
+(* Scheduling is cooperative.  One action (RunTask) = the event loop        *)
+(* resumes one runnable task, which executes micro-steps (operator Micro:   *)
+(* one per statement group of the Python source, written as functions on a  *)
+(* snapshot record of the state) until it parks on an unfinished future or  *)
+(* ends: exactly one await-free block.  The loop may pick any runnable task *)
+(* (a superset of the FIFO ready queue); the environment acts between       *)
+(* blocks.  Properties are stated over observation variables               *)
+(* (ConnPoolProps) and evaluated at every block boundary.                   *)
 (*                                                                         *)
 (* asyncio.Lock (3.12): acquire() takes the fast path only when the lock   *)
 (* is free and every queued waiter is cancelled; release() wakes the first *)
@@ -31,12 +34,11 @@ CONSTANTS MaxCount,   \* ConnectionPool max_count (force-clean threshold)
           Uses,       \* acquire/release rounds per client
           MaxCancel,  \* budget of task cancellations
           MaxKill,    \* budget of remote closes
-          MaxFail,    \* budget of failed connects
           Modes,      \* subset of {"a","n"}: awaited release / no_wait_release
           FixCancel,  \* TRUE: repaired cancellation handling in HostPool.acquire / ConnectionPool.acquire
           FixShield   \* TRUE: _process_no_wait_releases shields the release task it awaits
 
-R       == N * Uses            \* release tasks
+R       == N + 1               \* release-task slots (a slot is reused once the task is finished and forgotten)
 Threads == 1..(N + R)
 RTs     == (N + 1)..(N + R)
 Locks   == 0..H
@@ -47,20 +49,17 @@ VARIABLES
   pc, tk, tc, ck, tq, tforce,   \* per task: program counter, key, connection, key being cleaned, keys left, force
   cflag,    \* Task._must_cancel: CancelledError is thrown at the next resumption
   cwc,      \* Condition.wait(): local `cancelled`
-  why,      \* kind of exception that ends the task ("" | "cancel" | "error")
+  why,      \* kind of exception that is ending the task ("" | "cancel" | "error"), inside a block only
   join,     \* [Clients -> release task awaited in _process_no_wait_releases, or 0]
   rtasks,   \* ConnectionPool._release_tasks
-  nrt, uses, cur,
-  ncancel, nkill, nfail
+  uses, ncancel, nkill
 
 pvars  == <<present, ready, busy, waiters, cstat>>
 svars  == <<lock, cond>>
 tvars  == <<pc, tk, tc, ck, tq, tforce, cflag, cwc, why, join>>
-gvars  == <<rtasks, nrt, uses, cur>>
-bvars  == <<ncancel, nkill, nfail>>
+bvars  == <<uses, ncancel, nkill>>
 ovars  == <<holders, inAcq, inRel, rpend, quiet>>
-mvars  == <<pvars, svars, tvars, gvars, bvars>>
-vars   == <<mvars, ovars>>
+vars   == <<pvars, svars, tvars, rtasks, bvars, ovars>>
 
 -----------------------------------------------------------------------------
 (* program counters                                                         *)
@@ -72,14 +71,10 @@ NotYet    == {"unused"}
 Running   == {"a_drain", "a_l1", "a_l1cs", "h_acq", "h_loop", "h_cwl", "h_got", "a_l2", "a_l2cs", "a_ret",
               "r_start", "r_cs", "c_l", "c_loop0", "c_loop", "c_cs", "r_ret",
               "x_cw", "x_hp", "x_clean", "x_fin", "x_rfin", "new", "xnew"}
-AcqPcs    == {"a_drain", "a_join", "a_l1", "a_l1w", "a_l1cs", "h_acq", "h_acqw", "h_loop", "h_cw", "h_cwl",
-              "h_cwlw", "h_got", "a_l2", "a_l2w", "a_l2cs", "a_ret", "x_cw", "x_hp", "x_fin"}
-RelPcs    == {"r_start", "r_w", "r_cs", "c_l", "c_lw", "c_loop0", "c_loop", "c_pw", "c_cs", "r_ret", "x_clean", "x_rfin"}
+AcqPcs    == {"a_drain", "a_join", "a_l1w", "h_acqw", "h_cw", "h_cwlw", "a_l2w"}   \* at block boundaries
+RelPcs    == {"r_start", "r_w", "c_lw", "c_pw"}
 
 IsClient(t) == t <= N
-
-\* the lock a parked task is queued on
-LockOf(t) == IF pc[t] \in {"a_l1w", "a_l2w", "c_lw"} THEN 0 ELSE IF pc[t] = "c_pw" THEN ck[t] ELSE tk[t]
 
 -----------------------------------------------------------------------------
 (* asyncio.Lock / asyncio.Condition as data                                 *)
@@ -91,24 +86,186 @@ Released(L)   == [held |-> FALSE, q |-> WakeFirst(L.q)]
 Without(q, t) == SelectSeq(q, LAMBDA e : e.t # t)
 Pos(q, t)     == CHOOSE i \in DOMAIN q : q[i].t = t
 StatIn(q, t)  == q[Pos(q, t)].s
-InQ(q, t)     == \E i \in DOMAIN q : q[i].t = t
 SetStat(q, t, s) == [q EXCEPT ![Pos(q, t)].s = s]
 \* a woken waiter takes the lock / a cancelled waiter leaves and, if the lock is free, wakes the next one
-WokenTakes(L, t)  == [held |-> TRUE, q |-> Without(L.q, t)]
+WokenTakes(L, t)   == [held |-> TRUE, q |-> Without(L.q, t)]
 CancelLeaves(L, t) == LET q2 == Without(L.q, t) IN [held |-> L.held, q |-> IF L.held THEN q2 ELSE WakeFirst(q2)]
 \* notify(1): the first waiter whose future is not done
 NotifyOne(q) == IF \E i \in DOMAIN q : q[i].s = "p"
                 THEN LET i == CHOOSE j \in DOMAIN q : q[j].s = "p" /\ \A j2 \in 1..(j - 1) : q[j2].s # "p"
                      IN [q EXCEPT ![i].s = "n"]
                 ELSE q
-
-Min(S) == CHOOSE x \in S : \A y \in S : x <= y
-UsedConns == UNION {ready[k] \cup busy[k] : k \in Keys} \cup {tc[t] : t \in {u \in Threads : pc[u] \notin Terminal \cup NotYet \cup {"idle"}}}
-Count == LET RECURSIVE Sum(_)
-             Sum(S) == IF S = {} THEN 0 ELSE LET k == Min(S) IN Cardinality(ready[k]) + Cardinality(busy[k]) + Sum(S \ {k})
-         IN Sum({k \in Keys : present[k]})
-
 EmptyLock == [held |-> FALSE, q |-> <<>>]
+Min(S) == CHOOSE x \in S : \A y \in S : x <= y
+
+-----------------------------------------------------------------------------
+(* The state as a record, so that the statements of a block compose         *)
+Snap == [present |-> present, ready |-> ready, busy |-> busy, waiters |-> waiters, cstat |-> cstat,
+         lock |-> lock, cond |-> cond, pc |-> pc, tk |-> tk, tc |-> tc, ck |-> ck, tq |-> tq,
+         tforce |-> tforce, cflag |-> cflag, cwc |-> cwc, why |-> why, join |-> join, rtasks |-> rtasks]
+
+Install(S) ==
+  /\ present' = S.present /\ ready' = S.ready /\ busy' = S.busy /\ waiters' = S.waiters /\ cstat' = S.cstat
+  /\ lock' = S.lock /\ cond' = S.cond /\ pc' = S.pc /\ tk' = S.tk /\ tc' = S.tc /\ ck' = S.ck /\ tq' = S.tq
+  /\ tforce' = S.tforce /\ cflag' = S.cflag /\ cwc' = S.cwc /\ why' = S.why /\ join' = S.join
+  /\ rtasks' = S.rtasks
+
+\* the lock a parked task is queued on
+LockOf(S, t) == IF S.pc[t] \in {"a_l1w", "a_l2w", "c_lw"} THEN 0 ELSE IF S.pc[t] = "c_pw" THEN S.ck[t] ELSE S.tk[t]
+
+UsedConns(S) == UNION {S.ready[k] \cup S.busy[k] : k \in Keys} \cup {S.tc[u] : u \in Threads}
+Count(S) == LET RECURSIVE Sum(_)
+                Sum(K) == IF K = {} THEN 0
+                          ELSE LET k == Min(K) IN Cardinality(S.ready[k]) + Cardinality(S.busy[k]) + Sum(K \ {k})
+            IN Sum({k \in Keys : S.present[k]})
+
+\* try to take lock l: fast path, or queue up and park
+TryLock(S, t, l, okpc, waitpc) ==
+  IF CanFast(S.lock[l]) THEN [S EXCEPT !.lock[l].held = TRUE, !.pc[t] = okpc]
+                        ELSE [S EXCEPT !.lock[l].q = Enq(@, t), !.pc[t] = waitpc]
+
+\* the locals of a task that ended
+Dead(S, t, p) == [S EXCEPT !.pc[t] = p, !.tk[t] = 0, !.tc[t] = 0, !.ck[t] = 0, !.tq[t] = {}, !.tforce[t] = FALSE,
+                           !.why[t] = "", !.cwc[t] = FALSE]
+
+\* where a task continues once it owns the lock it queued for / where CancelledError goes when raised at that await
+AfterLock(p, c) ==
+  CASE p = "a_l1w" -> "a_l1cs" [] p = "a_l2w" -> "a_l2cs" [] p = "h_acqw" -> "h_loop"
+    [] p = "h_cwlw" -> (IF c THEN "x_cw" ELSE "h_loop")
+    [] p = "r_w" -> "r_cs" [] p = "c_lw" -> "c_loop0" [] p = "c_pw" -> "c_cs"
+AfterCancel(p) ==
+  CASE p = "a_l1w" -> "x_fin" [] p = "a_l2w" -> "x_fin" [] p = "h_acqw" -> "x_hp"
+    [] p = "h_cwlw" -> "h_cwl"          \* swallowed by Condition.wait(): try again
+    [] p = "r_w" -> "x_rfin" [] p = "c_lw" -> "x_rfin" [] p = "c_pw" -> "x_clean"
+
+-----------------------------------------------------------------------------
+(* The loop resumes a task: first step of a block                           *)
+Resume(S, t) ==
+  LET p == S.pc[t] IN
+  IF p \in LockWait                       \* Lock.acquire() continues after its future was resolved or cancelled
+  THEN LET l == LockOf(S, t) IN
+       IF StatIn(S.lock[l].q, t) = "x" \/ S.cflag[t]
+       THEN [S EXCEPT !.lock[l] = CancelLeaves(@, t), !.pc[t] = AfterCancel(p), !.cflag[t] = FALSE,
+                      !.cwc[t] = IF p = "h_cwlw" THEN TRUE ELSE @,
+                      !.why[t] = IF p = "h_cwlw" THEN @ ELSE "cancel"]
+       ELSE [S EXCEPT !.lock[l] = WokenTakes(@, t), !.pc[t] = AfterLock(p, S.cwc[t]), !.cflag[t] = FALSE]
+  ELSE IF p = "h_cw"                      \* Condition.wait() continues: leave the waiter queue, go re-acquire the lock
+  THEN LET k == S.tk[t] IN
+       [S EXCEPT !.cond[k] = Without(@, t), !.cwc[t] = (StatIn(S.cond[k], t) = "x" \/ S.cflag[t]),
+                 !.cflag[t] = FALSE, !.pc[t] = "h_cwl"]
+  ELSE IF p = "a_join"                    \* `yield from release_task` continues
+  THEN LET r == S.join[t] IN
+       IF S.cflag[t] \/ S.pc[r] = "cancelled"
+       THEN [S EXCEPT !.pc[t] = "x_fin", !.why[t] = "cancel", !.cflag[t] = FALSE, !.join[t] = 0]
+       ELSE IF S.pc[r] = "errored"
+       THEN [S EXCEPT !.pc[t] = "x_fin", !.why[t] = "error", !.join[t] = 0]
+       ELSE [S EXCEPT !.pc[t] = "a_drain", !.join[t] = 0]
+  ELSE S
+
+-----------------------------------------------------------------------------
+(* The statements.  Micro(S, t) = set of states after the next statement    *)
+(* group of task t (a set because set.pop() and dict order are arbitrary).  *)
+Micro(S, t) ==
+  LET p == S.pc[t]
+      k == S.tk[t]
+      x == S.tc[t] IN
+  CASE
+  (* ---------------- ConnectionPool.acquire ---------------- *)
+  \* _process_no_wait_releases: pop a release task; await it unless it is finished
+     p = "a_drain" ->
+       IF S.rtasks = {} THEN {[S EXCEPT !.pc[t] = "a_l1"]}
+       ELSE {LET S1 == [S EXCEPT !.rtasks = @ \ {r}] IN
+             IF S.pc[r] = "done" THEN S1
+             ELSE IF S.pc[r] = "cancelled" THEN [S1 EXCEPT !.pc[t] = "x_fin", !.why[t] = "cancel"]
+             ELSE IF S.pc[r] = "errored" THEN [S1 EXCEPT !.pc[t] = "x_fin", !.why[t] = "error"]
+             ELSE [S1 EXCEPT !.pc[t] = "a_join", !.join[t] = r] : r \in S.rtasks}
+  \* with (yield from self._host_pools_lock):
+  [] p = "a_l1" -> {TryLock(S, t, 0, "a_l1cs", "a_l1w")}
+  \*   create the host pool or count one more waiter; leave the with block
+  [] p = "a_l1cs" ->
+       {[S EXCEPT !.waiters[k] = IF S.present[k] THEN @ + 1 ELSE 1, !.present[k] = TRUE,
+                  !.lock[0] = Released(@), !.pc[t] = "h_acq"]}
+  (* ---------------- HostPool.acquire ---------------- *)
+  \* yield from self._condition.acquire()
+  [] p = "h_acq" -> {TryLock(S, t, k, "h_loop", "h_acqw")}
+  \* while True: pop an idle connection / make a new one / wait on the condition (= release the lock and park)
+  [] p = "h_loop" ->
+       IF S.ready[k] # {}
+       THEN {[S EXCEPT !.ready[k] = @ \ {y}, !.tc[t] = y, !.pc[t] = "h_got"] : y \in S.ready[k]}
+       ELSE IF Cardinality(S.busy[k]) < M
+       THEN LET y == Min(Conns \ UsedConns(S)) IN
+            {[S EXCEPT !.tc[t] = y, !.cstat[y] = "dn", !.pc[t] = "h_got"]}
+       ELSE {[S EXCEPT !.lock[k] = Released(@), !.cond[k] = Enq(@, t), !.pc[t] = "h_cw"]}
+  \* Condition.wait(), finally: await self.acquire()  (in a loop that swallows cancellations)
+  [] p = "h_cwl" -> {TryLock(S, t, k, IF S.cwc[t] THEN "x_cw" ELSE "h_loop", "h_cwlw")}
+  \* self.busy.add(connection); self._condition.release(); back in ConnectionPool.acquire: connection.key = key
+  [] p = "h_got" ->
+       LET S1 == [S EXCEPT !.busy[k] = @ \cup {x}, !.lock[k] = Released(@)] IN
+       IF FixCancel THEN {[S1 EXCEPT !.waiters[k] = @ - 1, !.pc[t] = "a_ret"]}   \* finally: waiters -= 1, no lock
+                    ELSE {[S1 EXCEPT !.pc[t] = "a_l2"]}
+  \* with (yield from self._host_pools_lock): self._host_pool_waiters[key] -= 1      (unrepaired code only)
+  [] p = "a_l2" -> {TryLock(S, t, 0, "a_l2cs", "a_l2w")}
+  [] p = "a_l2cs" -> {[S EXCEPT !.waiters[k] = @ - 1, !.lock[0] = Released(@), !.pc[t] = "a_ret"]}
+  \* return connection: the client holds it from now on and waits for the environment
+  [] p = "a_ret" -> {[S EXCEPT !.pc[t] = "use"]}
+  (* ---------------- exceptions leaving acquire ---------------- *)
+  \* CancelledError leaves Condition.wait() - the lock has been re-acquired.  Unrepaired: nobody releases it.
+  \* Repaired: except: notify() (pass a possibly consumed notification on); finally: release()
+  [] p = "x_cw" ->
+       IF FixCancel
+       THEN {[S EXCEPT !.cond[k] = NotifyOne(@), !.lock[k] = Released(@), !.pc[t] = "x_hp", !.why[t] = "cancel"]}
+       ELSE {[S EXCEPT !.pc[t] = "x_hp", !.why[t] = "cancel"]}
+  \* the exception passes through ConnectionPool.acquire.  Repaired: the waiter is un-counted, and a pool that it
+  \* leaves behind empty and unwaited is dropped
+  [] p = "x_hp" ->
+       IF FixCancel
+       THEN IF S.waiters[k] = 1 /\ S.ready[k] = {} /\ S.busy[k] = {} /\ ~S.lock[0].held
+            THEN {[S EXCEPT !.waiters[k] = 0, !.present[k] = FALSE, !.lock[k] = EmptyLock, !.pc[t] = "x_fin"]}
+            ELSE {[S EXCEPT !.waiters[k] = @ - 1, !.pc[t] = "x_fin"]}
+       ELSE {[S EXCEPT !.pc[t] = "x_fin"]}
+  \* the exception leaves clean(): the with block releases the pools lock
+  [] p = "x_clean" -> {[S EXCEPT !.lock[0] = Released(@), !.pc[t] = "x_rfin"]}
+  \* the task ends with the exception
+  [] p \in {"x_fin", "x_rfin"} -> {Dead(S, t, IF S.why[t] = "error" THEN "errored" ELSE "cancelled")}
+  (* ---------------- ConnectionPool.release (inline in a client, or as a no_wait_release task) ---------------- *)
+  \* a release task that was cancelled before it ever ran
+  [] p = "xnew" -> {Dead(S, t, "cancelled")}
+  \* host_pool = self._host_pools[key]; HostPool.release: yield from self._condition.acquire()
+  [] p \in {"r_start", "new"} ->
+       IF ~S.present[k] THEN {[S EXCEPT !.pc[t] = "x_rfin", !.why[t] = "error"]}                  \* KeyError
+       ELSE {TryLock(S, t, k, "r_cs", "r_w")}
+  \*   busy.remove; ready.add; notify(); release;  force = self.count() > self._max_count
+  [] p = "r_cs" ->
+       IF x \notin S.busy[k] THEN {[S EXCEPT !.pc[t] = "x_rfin", !.why[t] = "error"]}             \* KeyError, lock kept
+       ELSE LET S1 == [S EXCEPT !.busy[k] = @ \ {x}, !.ready[k] = @ \cup {x}, !.cond[k] = NotifyOne(@),
+                                !.lock[k] = Released(@)] IN
+            {[S1 EXCEPT !.tforce[t] = (Count(S1) > MaxCount), !.pc[t] = "c_l"]}
+  \* ConnectionPool.clean: with (yield from self._host_pools_lock):
+  [] p = "c_l" -> {TryLock(S, t, 0, "c_loop0", "c_lw")}
+  \*   for key, pool in tuple(self._host_pools.items()):
+  [] p = "c_loop0" -> {[S EXCEPT !.tq[t] = {j \in Keys : S.present[j]}, !.pc[t] = "c_loop"]}
+  \*     yield from pool.clean(force):  with (yield from self._lock):
+  [] p = "c_loop" ->
+       IF S.tq[t] = {} THEN {[S EXCEPT !.lock[0] = Released(@), !.pc[t] = "r_ret"]}
+       ELSE {TryLock([S EXCEPT !.tq[t] = @ \ {j}, !.ck[t] = j], t, j, "c_cs", "c_pw") : j \in S.tq[t]}
+  \*       close and drop closed (or, forced, all) idle connections; drop the pool if nobody waits and it is empty
+  [] p = "c_cs" ->
+       LET j    == S.ck[t]
+           gone == {y \in S.ready[j] : S.tforce[t] \/ S.cstat[y] # "up"}
+           left == S.ready[j] \ gone
+           S1   == [S EXCEPT !.ready[j] = left, !.cstat = [y \in Conns |-> IF y \in gone THEN "dn" ELSE @[y]],
+                             !.pc[t] = "c_loop", !.ck[t] = 0] IN
+       IF S.waiters[j] = 0 /\ left = {} /\ S.busy[j] = {}
+       THEN {[S1 EXCEPT !.present[j] = FALSE, !.lock[j] = EmptyLock]}
+       ELSE {[S1 EXCEPT !.lock[j] = Released(@)]}
+  \* release() returns
+  [] p = "r_ret" -> {Dead(S, t, IF IsClient(t) THEN "idle" ELSE "done")}
+
+\* run the block to its end: until the task parks, waits for the environment, or is over
+RECURSIVE RunAll(_, _)
+RunAll(SS, t) ==
+  IF \A S \in SS : S.pc[t] \notin Running THEN SS
+  ELSE RunAll(UNION {IF S.pc[t] \in Running THEN Micro(S, t) ELSE {S} : S \in SS}, t)
 
 -----------------------------------------------------------------------------
 InitM ==
@@ -120,8 +277,8 @@ InitM ==
   /\ tq = [t \in Threads |-> {}] /\ tforce = [t \in Threads |-> FALSE]
   /\ cflag = [t \in Threads |-> FALSE] /\ cwc = [t \in Threads |-> FALSE] /\ why = [t \in Threads |-> ""]
   /\ join = [c \in Clients |-> 0]
-  /\ rtasks = {} /\ nrt = 0 /\ uses = [c \in Clients |-> 0] /\ cur = 0
-  /\ ncancel = 0 /\ nkill = 0 /\ nfail = 0
+  /\ rtasks = {} /\ uses = [c \in Clients |-> 0]
+  /\ ncancel = 0 /\ nkill = 0
 
 \* observation variables are functions of the rest of the state
 Holders == [x \in Conns |-> {c \in Clients : pc[c] = "use" /\ tc[c] = x}]
@@ -132,384 +289,81 @@ RPend   == {r \in RTs : pc[r] \notin Terminal \cup NotYet}
 \* a task that the loop can run now
 Wakeable(t) ==
   \/ pc[t] \in Running
-  \/ pc[t] \in LockWait /\ StatIn(lock[LockOf(t)].q, t) \in {"w", "x"}
+  \/ pc[t] \in LockWait /\ StatIn(lock[LockOf(Snap, t)].q, t) \in {"w", "x"}
   \/ pc[t] = "h_cw" /\ StatIn(cond[tk[t]], t) \in {"n", "x"}
   \/ pc[t] = "a_join" /\ (cflag[t] \/ pc[join[t]] \in Terminal)
-Quiet == cur = 0 /\ \A t \in Threads : ~Wakeable(t)
+Quiet == \A t \in Threads : ~Wakeable(t)
 
-Derived ==
-  /\ holders = Holders /\ inAcq = InAcq /\ inRel = InRel /\ rpend = RPend /\ quiet = Quiet
-
-Init == InitM /\ Derived
+Init == InitM /\ holders = Holders /\ inAcq = InAcq /\ inRel = InRel /\ rpend = RPend /\ quiet = Quiet
 
 \* every action re-derives the observation variables
 Obs == holders' = Holders' /\ inAcq' = InAcq' /\ inRel' = InRel' /\ rpend' = RPend' /\ quiet' = Quiet'
 
 -----------------------------------------------------------------------------
-(* helpers for steps of the running task                                    *)
-Goto(t, p)    == pc' = [pc EXCEPT ![t] = p]
-Keep          == cur' = cur
-Yield         == cur' = 0
-
-\* try to take lock l: fast path, or queue up and park
-TryLock(t, l, okpc, waitpc) ==
-  IF CanFast(lock[l])
-  THEN /\ lock' = [lock EXCEPT ![l].held = TRUE] /\ Goto(t, okpc) /\ Keep
-  ELSE /\ lock' = [lock EXCEPT ![l].q = Enq(@, t)] /\ Goto(t, waitpc) /\ Yield
-
-Unlock(l) == lock' = [lock EXCEPT ![l] = Released(@)]
-
-\* where a task continues once it owns the lock it queued for
-AfterLock(t) ==
-  CASE pc[t] = "a_l1w"  -> "a_l1cs"
-    [] pc[t] = "a_l2w"  -> "a_l2cs"
-    [] pc[t] = "h_acqw" -> "h_loop"
-    [] pc[t] = "h_cwlw" -> IF cwc[t] THEN "x_cw" ELSE "h_loop"
-    [] pc[t] = "r_w"    -> "r_cs"
-    [] pc[t] = "c_lw"   -> "c_loop0"
-    [] pc[t] = "c_pw"   -> "c_cs"
-\* where CancelledError goes when it is raised at that await
-AfterCancel(t) ==
-  CASE pc[t] = "a_l1w"  -> "x_fin"
-    [] pc[t] = "a_l2w"  -> "x_fin"
-    [] pc[t] = "h_acqw" -> "x_hp"
-    [] pc[t] = "h_cwlw" -> "h_cwl"     \* swallowed by Condition.wait(): try again
-    [] pc[t] = "r_w"    -> "x_rfin"
-    [] pc[t] = "c_lw"   -> "x_rfin"
-    [] pc[t] = "c_pw"   -> "x_clean"
-
------------------------------------------------------------------------------
-(* the loop resumes a parked task                                           *)
-
-\* Lock.acquire() continues after its future was resolved or cancelled
-LockResume(t) ==
-  /\ cur = 0 /\ pc[t] \in LockWait
-  /\ LET l == LockOf(t)
-         s == StatIn(lock[l].q, t) IN
-     /\ s \in {"w", "x"}
-     /\ IF s = "x" \/ cflag[t]
-        THEN /\ lock' = [lock EXCEPT ![l] = CancelLeaves(@, t)]
-             /\ Goto(t, AfterCancel(t))
-             /\ cwc' = IF pc[t] = "h_cwlw" THEN [cwc EXCEPT ![t] = TRUE] ELSE cwc
-             /\ why' = IF pc[t] = "h_cwlw" THEN why ELSE [why EXCEPT ![t] = "cancel"]
-        ELSE /\ lock' = [lock EXCEPT ![l] = WokenTakes(@, t)]
-             /\ Goto(t, AfterLock(t))
-             /\ UNCHANGED <<cwc, why>>
-  /\ cflag' = [cflag EXCEPT ![t] = FALSE]
-  /\ cur' = t
-  /\ UNCHANGED <<pvars, cond, tk, tc, ck, tq, tforce, join, rtasks, nrt, uses, bvars>>
+(* The event loop runs one block of one task                                *)
+RunTask(t) ==
+  /\ Wakeable(t)
+  /\ \E S2 \in RunAll({Resume(Snap, t)}, t) : Install(S2)
+  /\ UNCHANGED bvars
   /\ Obs
 
-\* Condition.wait() continues after notify() or cancellation: leave the waiter queue, go re-acquire the lock
-CondResume(t) ==
-  /\ cur = 0 /\ pc[t] = "h_cw"
-  /\ LET k == tk[t]
-         s == StatIn(cond[k], t) IN
-     /\ s \in {"n", "x"}
-     /\ cond' = [cond EXCEPT ![k] = Without(@, t)]
-     /\ cwc' = [cwc EXCEPT ![t] = (s = "x" \/ cflag[t])]
-  /\ cflag' = [cflag EXCEPT ![t] = FALSE]
-  /\ Goto(t, "h_cwl") /\ cur' = t
-  /\ UNCHANGED <<pvars, lock, tk, tc, ck, tq, tforce, why, join, rtasks, nrt, uses, bvars>>
-  /\ Obs
-
-\* `yield from release_task` continues
-JoinResume(t) ==
-  /\ cur = 0 /\ pc[t] = "a_join"
-  /\ cflag[t] \/ pc[join[t]] \in Terminal
-  /\ IF cflag[t] \/ pc[join[t]] = "cancelled"
-     THEN Goto(t, "x_fin") /\ why' = [why EXCEPT ![t] = "cancel"]
-     ELSE IF pc[join[t]] = "errored"
-     THEN Goto(t, "x_fin") /\ why' = [why EXCEPT ![t] = "error"]
-     ELSE Goto(t, "a_drain") /\ UNCHANGED why
-  /\ cflag' = [cflag EXCEPT ![t] = FALSE]
-  /\ join' = [join EXCEPT ![t] = 0]
-  /\ cur' = t
-  /\ UNCHANGED <<pvars, svars, tk, tc, ck, tq, tforce, cwc, rtasks, nrt, uses, bvars>>
-  /\ Obs
-
-\* a task that is in the ready queue with nothing to wait for (just started, or just told to go on)
-Dispatch(t) ==
-  /\ cur = 0 /\ pc[t] \in Running
-  /\ cur' = t
-  /\ UNCHANGED <<pvars, svars, tvars, rtasks, nrt, uses, bvars>>
-  /\ Obs
-
------------------------------------------------------------------------------
-(* ConnectionPool.acquire                                                   *)
-
-\* _process_no_wait_releases: pop a release task; await it unless it is finished
-ADrain(t) ==
-  /\ cur = t /\ pc[t] = "a_drain"
-  /\ IF rtasks = {}
-     THEN Goto(t, "a_l1") /\ Keep /\ UNCHANGED <<rtasks, join, why>>
-     ELSE \E r \in rtasks :
-            /\ rtasks' = rtasks \ {r}
-            /\ IF pc[r] = "done" THEN UNCHANGED <<pc, join, why>> /\ Keep
-               ELSE IF pc[r] = "cancelled" THEN Goto(t, "x_fin") /\ why' = [why EXCEPT ![t] = "cancel"] /\ Keep /\ UNCHANGED join
-               ELSE IF pc[r] = "errored" THEN Goto(t, "x_fin") /\ why' = [why EXCEPT ![t] = "error"] /\ Keep /\ UNCHANGED join
-               ELSE Goto(t, "a_join") /\ join' = [join EXCEPT ![t] = r] /\ Yield /\ UNCHANGED why
-  /\ UNCHANGED <<pvars, svars, tk, tc, ck, tq, tforce, cflag, cwc, nrt, uses, bvars>>
-  /\ Obs
-
-\* with (yield from self._host_pools_lock):
-AL1(t) ==
-  /\ cur = t /\ pc[t] = "a_l1"
-  /\ TryLock(t, 0, "a_l1cs", "a_l1w")
-  /\ UNCHANGED <<pvars, cond, tk, tc, ck, tq, tforce, cflag, cwc, why, join, rtasks, nrt, uses, bvars>>
-  /\ Obs
-
-\*   create the host pool or count one more waiter; leave the with block
-AL1cs(t) ==
-  /\ cur = t /\ pc[t] = "a_l1cs"
-  /\ LET k == tk[t] IN
-     IF present[k]
-     THEN waiters' = [waiters EXCEPT ![k] = @ + 1] /\ UNCHANGED present
-     ELSE waiters' = [waiters EXCEPT ![k] = 1] /\ present' = [present EXCEPT ![k] = TRUE]
-  /\ Unlock(0) /\ Goto(t, "h_acq") /\ Keep
-  /\ UNCHANGED <<ready, busy, cstat, cond, tk, tc, ck, tq, tforce, cflag, cwc, why, join, rtasks, nrt, uses, bvars>>
-  /\ Obs
-
-\* HostPool.acquire: yield from self._condition.acquire()
-HAcq(t) ==
-  /\ cur = t /\ pc[t] = "h_acq"
-  /\ TryLock(t, tk[t], "h_loop", "h_acqw")
-  /\ UNCHANGED <<pvars, cond, tk, tc, ck, tq, tforce, cflag, cwc, why, join, rtasks, nrt, uses, bvars>>
-  /\ Obs
-
-\*   while True: pop an idle connection / make a new one / wait on the condition
-HLoop(t) ==
-  /\ cur = t /\ pc[t] = "h_loop"
-  /\ LET k == tk[t] IN
-     IF ready[k] # {}
-     THEN \E x \in ready[k] :
-            /\ ready' = [ready EXCEPT ![k] = @ \ {x}] /\ tc' = [tc EXCEPT ![t] = x]
-            /\ Goto(t, "h_got") /\ Keep /\ UNCHANGED <<cstat, lock, cond>>
-     ELSE IF Cardinality(busy[k]) < M
-     THEN LET x == Min(Conns \ UsedConns) IN
-            /\ tc' = [tc EXCEPT ![t] = x] /\ cstat' = [cstat EXCEPT ![x] = "dn"]
-            /\ Goto(t, "h_got") /\ Keep /\ UNCHANGED <<ready, lock, cond>>
-     ELSE /\ Unlock(k)                                     \* Condition.wait(): release, park
-          /\ cond' = [cond EXCEPT ![k] = Enq(@, t)]
-          /\ Goto(t, "h_cw") /\ Yield /\ UNCHANGED <<ready, tc, cstat>>
-  /\ UNCHANGED <<present, busy, waiters, tk, ck, tq, tforce, cflag, cwc, why, join, rtasks, nrt, uses, bvars>>
-  /\ Obs
-
-\*   Condition.wait(), finally: await self.acquire()  (in a loop that swallows cancellations)
-HCwl(t) ==
-  /\ cur = t /\ pc[t] = "h_cwl"
-  /\ TryLock(t, tk[t], IF cwc[t] THEN "x_cw" ELSE "h_loop", "h_cwlw")
-  /\ UNCHANGED <<pvars, cond, tk, tc, ck, tq, tforce, cflag, cwc, why, join, rtasks, nrt, uses, bvars>>
-  /\ Obs
-
-\*   self.busy.add(connection); self._condition.release(); back in ConnectionPool.acquire
-HGot(t) ==
-  /\ cur = t /\ pc[t] = "h_got"
-  /\ LET k == tk[t] IN
-     /\ busy' = [busy EXCEPT ![k] = @ \cup {tc[t]}]
-     /\ Unlock(k)
-     /\ IF FixCancel
-        THEN waiters' = [waiters EXCEPT ![k] = @ - 1] /\ Goto(t, "a_ret")     \* finally: waiters -= 1 (no lock)
-        ELSE UNCHANGED waiters /\ Goto(t, "a_l2")
-  /\ Keep
-  /\ UNCHANGED <<present, ready, cstat, cond, tk, tc, ck, tq, tforce, cflag, cwc, why, join, rtasks, nrt, uses, bvars>>
-  /\ Obs
-
-\* with (yield from self._host_pools_lock): self._host_pool_waiters[key] -= 1     (unrepaired code only)
-AL2(t) ==
-  /\ cur = t /\ pc[t] = "a_l2"
-  /\ TryLock(t, 0, "a_l2cs", "a_l2w")
-  /\ UNCHANGED <<pvars, cond, tk, tc, ck, tq, tforce, cflag, cwc, why, join, rtasks, nrt, uses, bvars>>
-  /\ Obs
-
-AL2cs(t) ==
-  /\ cur = t /\ pc[t] = "a_l2cs"
-  /\ waiters' = [waiters EXCEPT ![tk[t]] = @ - 1]
-  /\ Unlock(0) /\ Goto(t, "a_ret") /\ Keep
-  /\ UNCHANGED <<present, ready, busy, cstat, cond, tk, tc, ck, tq, tforce, cflag, cwc, why, join, rtasks, nrt, uses, bvars>>
-  /\ Obs
-
-\* return connection: the client holds it from now on and waits for the environment
-ARet(t) ==
-  /\ cur = t /\ pc[t] = "a_ret"
-  /\ Goto(t, "use") /\ Yield
-  /\ UNCHANGED <<pvars, svars, tk, tc, ck, tq, tforce, cflag, cwc, why, join, rtasks, nrt, uses, bvars>>
-  /\ Obs
-
------------------------------------------------------------------------------
-(* exceptions leaving acquire                                               *)
-
-\* CancelledError leaves Condition.wait() - the lock has been re-acquired
-XCw(t) ==
-  /\ cur = t /\ pc[t] = "x_cw"
-  /\ LET k == tk[t] IN
-     IF FixCancel
-     THEN /\ cond' = [cond EXCEPT ![k] = NotifyOne(@)]     \* pass a possibly consumed notification on
-          /\ Unlock(k)                                     \* finally: self._condition.release()
-     ELSE UNCHANGED <<lock, cond>>                         \* nobody releases the lock
-  /\ Goto(t, "x_hp") /\ Keep
-  /\ why' = [why EXCEPT ![t] = "cancel"] /\ cwc' = [cwc EXCEPT ![t] = FALSE]
-  /\ UNCHANGED <<pvars, tk, tc, ck, tq, tforce, cflag, join, rtasks, nrt, uses, bvars>>
-  /\ Obs
-
-\* the exception leaves HostPool.acquire and passes through ConnectionPool.acquire
-\* (repaired code: the waiter is un-counted, and a pool it leaves behind empty and unwaited is dropped)
-XHp(t) ==
-  /\ cur = t /\ pc[t] = "x_hp"
-  /\ LET k == tk[t] IN
-     IF FixCancel
-     THEN /\ waiters' = [waiters EXCEPT ![k] = @ - 1]
-          /\ IF waiters[k] = 1 /\ ready[k] = {} /\ busy[k] = {} /\ ~lock[0].held
-             THEN present' = [present EXCEPT ![k] = FALSE] /\ lock' = [lock EXCEPT ![k] = EmptyLock]
-             ELSE UNCHANGED <<present, lock>>
-     ELSE UNCHANGED <<waiters, present, lock>>
-  /\ Goto(t, "x_fin") /\ Keep
-  /\ UNCHANGED <<ready, busy, cstat, cond, tk, tc, ck, tq, tforce, cflag, cwc, why, join, rtasks, nrt, uses, bvars>>
-  /\ Obs
-
-\* the exception leaves clean(): the with block releases the pools lock
-XClean(t) ==
-  /\ cur = t /\ pc[t] = "x_clean"
-  /\ Unlock(0) /\ Goto(t, "x_rfin") /\ Keep
-  /\ UNCHANGED <<pvars, cond, tk, tc, ck, tq, tforce, cflag, cwc, why, join, rtasks, nrt, uses, bvars>>
-  /\ Obs
-
-\* the task ends with the exception
-XFin(t) ==
-  /\ cur = t /\ pc[t] \in {"x_fin", "x_rfin"}
-  /\ Goto(t, IF why[t] = "error" THEN "errored" ELSE "cancelled") /\ Yield
-  /\ UNCHANGED <<pvars, svars, tk, tc, ck, tq, tforce, cflag, cwc, why, join, rtasks, nrt, uses, bvars>>
-  /\ Obs
-
------------------------------------------------------------------------------
-(* ConnectionPool.release (inline in a client, or as a no_wait_release task) *)
-
-\* a release task that was cancelled before it ever ran
-RtStillborn(t) ==
-  /\ cur = t /\ pc[t] = "xnew"
-  /\ Goto(t, "cancelled") /\ Yield
-  /\ UNCHANGED <<pvars, svars, tk, tc, ck, tq, tforce, cflag, cwc, why, join, rtasks, nrt, uses, bvars>>
-  /\ Obs
-
-\* host_pool = self._host_pools[key]; HostPool.release: yield from self._condition.acquire()
-RStart(t) ==
-  /\ cur = t /\ pc[t] \in {"r_start", "new"}
-  /\ IF ~present[tk[t]]
-     THEN Goto(t, "x_rfin") /\ why' = [why EXCEPT ![t] = "error"] /\ Keep /\ UNCHANGED lock     \* KeyError
-     ELSE TryLock(t, tk[t], "r_cs", "r_w") /\ UNCHANGED why
-  /\ UNCHANGED <<pvars, cond, tk, tc, ck, tq, tforce, cflag, cwc, join, rtasks, nrt, uses, bvars>>
-  /\ Obs
-
-\*   busy.remove; ready.add; notify(); release;  force = self.count() > self._max_count
-RCs(t) ==
-  /\ cur = t /\ pc[t] = "r_cs"
-  /\ LET k == tk[t]
-         x == tc[t] IN
-     IF x \notin busy[k]
-     THEN /\ Goto(t, "x_rfin") /\ why' = [why EXCEPT ![t] = "error"]                             \* KeyError, lock kept
-          /\ UNCHANGED <<ready, busy, lock, cond, tforce>>
-     ELSE /\ busy' = [busy EXCEPT ![k] = @ \ {x}] /\ ready' = [ready EXCEPT ![k] = @ \cup {x}]
-          /\ cond' = [cond EXCEPT ![k] = NotifyOne(@)]
-          /\ Unlock(k)
-          /\ tforce' = [tforce EXCEPT ![t] = (Count > MaxCount)]
-          /\ Goto(t, "c_l") /\ UNCHANGED why
-  /\ Keep
-  /\ UNCHANGED <<present, waiters, cstat, tk, tc, ck, tq, cflag, cwc, join, rtasks, nrt, uses, bvars>>
-  /\ Obs
-
-\* ConnectionPool.clean: with (yield from self._host_pools_lock):
-CL(t) ==
-  /\ cur = t /\ pc[t] = "c_l"
-  /\ TryLock(t, 0, "c_loop0", "c_lw")
-  /\ UNCHANGED <<pvars, cond, tk, tc, ck, tq, tforce, cflag, cwc, why, join, rtasks, nrt, uses, bvars>>
-  /\ Obs
-
-\*   for key, pool in tuple(self._host_pools.items()):
-CLoop0(t) ==
-  /\ cur = t /\ pc[t] = "c_loop0"
-  /\ tq' = [tq EXCEPT ![t] = {k \in Keys : present[k]}]
-  /\ Goto(t, "c_loop") /\ Keep
-  /\ UNCHANGED <<pvars, svars, tk, tc, ck, tforce, cflag, cwc, why, join, rtasks, nrt, uses, bvars>>
-  /\ Obs
-
-\*     yield from pool.clean(force):  with (yield from self._lock):
-CLoop(t) ==
-  /\ cur = t /\ pc[t] = "c_loop"
-  /\ IF tq[t] = {}
-     THEN Unlock(0) /\ Goto(t, "r_ret") /\ Keep /\ UNCHANGED <<tq, ck>>
-     ELSE \E k \in tq[t] :
-            /\ tq' = [tq EXCEPT ![t] = @ \ {k}] /\ ck' = [ck EXCEPT ![t] = k]
-            /\ TryLock(t, k, "c_cs", "c_pw")
-  /\ UNCHANGED <<pvars, cond, tk, tc, tforce, cflag, cwc, why, join, rtasks, nrt, uses, bvars>>
-  /\ Obs
-
-\*       close and drop closed (or, forced, all) idle connections; drop the pool if nobody waits and it is empty
-CCs(t) ==
-  /\ cur = t /\ pc[t] = "c_cs"
-  /\ LET k    == ck[t]
-         gone == {x \in ready[k] : tforce[t] \/ cstat[x] # "up"}
-         left == ready[k] \ gone IN
-     /\ ready' = [ready EXCEPT ![k] = left]
-     /\ cstat' = [x \in Conns |-> IF x \in gone THEN "dn" ELSE cstat[x]]
-     /\ IF waiters[k] = 0 /\ left = {} /\ busy[k] = {}
-        THEN present' = [present EXCEPT ![k] = FALSE] /\ lock' = [lock EXCEPT ![k] = EmptyLock]
-        ELSE UNCHANGED present /\ Unlock(k)
-  /\ Goto(t, "c_loop") /\ Keep
-  /\ UNCHANGED <<busy, waiters, cond, tk, tc, ck, tq, tforce, cflag, cwc, why, join, rtasks, nrt, uses, bvars>>
-  /\ Obs
-
-\* release() returns
-RRet(t) ==
-  /\ cur = t /\ pc[t] = "r_ret"
-  /\ Goto(t, IF IsClient(t) THEN "idle" ELSE "done") /\ Yield
-  /\ UNCHANGED <<pvars, svars, tk, tc, ck, tq, tforce, cflag, cwc, why, join, rtasks, nrt, uses, bvars>>
-  /\ Obs
+\* named by where the task was suspended (for coverage)
+AcquireRuns(t)        == pc[t] = "a_drain" /\ RunTask(t)    \* a client that just called acquire()
+JoinerResumes(t)      == pc[t] = "a_join" /\ RunTask(t)     \* ... was awaiting a release task
+LockWaiterResumes(t)  == pc[t] \in LockWait /\ RunTask(t)   \* ... was queued on a lock
+CondWaiterResumes(t)  == pc[t] = "h_cw" /\ RunTask(t)       \* ... was parked in Condition.wait()
+ReleaseRuns(t)        == pc[t] = "r_start" /\ RunTask(t)    \* a client that just called release()
+ReleaseTaskRuns(t)    == pc[t] = "new" /\ RunTask(t)        \* a no_wait_release task starts
+ReleaseTaskStillborn(t) == pc[t] = "xnew" /\ RunTask(t)     \* ... that was cancelled before it started
 
 -----------------------------------------------------------------------------
 (* Environment                                                              *)
 
 \* a client calls pool.acquire(key k)
 Start(c, k) ==
-  /\ cur = 0 /\ pc[c] = "idle" /\ uses[c] < Uses
-  /\ Goto(c, "a_drain") /\ tk' = [tk EXCEPT ![c] = k] /\ tc' = [tc EXCEPT ![c] = 0]
-  /\ UNCHANGED <<pvars, svars, ck, tq, tforce, cflag, cwc, why, join, gvars, bvars>>
+  /\ pc[c] = "idle" /\ uses[c] < Uses
+  /\ pc' = [pc EXCEPT ![c] = "a_drain"] /\ tk' = [tk EXCEPT ![c] = k]
+  /\ UNCHANGED <<pvars, svars, tc, ck, tq, tforce, cflag, cwc, why, join, rtasks, bvars>>
   /\ Obs
 
 \* the client (re)connects the closed connection it holds; the connect may fail
 Connect(c, ok) ==
-  /\ cur = 0 /\ pc[c] = "use" /\ cstat[tc[c]] # "up"
-  /\ IF ok THEN cstat' = [cstat EXCEPT ![tc[c]] = "up"] /\ UNCHANGED nfail
-           ELSE nfail < MaxFail /\ nfail' = nfail + 1 /\ cstat' = [cstat EXCEPT ![tc[c]] = "dn"]
-  /\ UNCHANGED <<present, ready, busy, waiters, svars, tvars, gvars, ncancel, nkill>>
+  /\ pc[c] = "use" /\ cstat[tc[c]] # "up"
+  /\ cstat' = [cstat EXCEPT ![tc[c]] = IF ok THEN "up" ELSE "dn"]
+  /\ UNCHANGED <<present, ready, busy, waiters, svars, tvars, rtasks, bvars>>
   /\ Obs
 
 \* the remote end closes a pooled connection
 Kill(x) ==
-  /\ cur = 0 /\ nkill < MaxKill /\ cstat[x] = "up"
+  /\ nkill < MaxKill /\ cstat[x] = "up"
   /\ \E k \in Keys : x \in ready[k] \cup busy[k]
   /\ cstat' = [cstat EXCEPT ![x] = IF \E k \in Keys : x \in ready[k] THEN "ex" ELSE "dn"]
   /\ nkill' = nkill + 1
-  /\ UNCHANGED <<present, ready, busy, waiters, svars, tvars, gvars, ncancel, nfail>>
+  /\ UNCHANGED <<present, ready, busy, waiters, svars, tvars, rtasks, uses, ncancel>>
   /\ Obs
+
+\* a free release-task slot
+FreeRT == {r \in RTs : pc[r] \in Terminal \cup NotYet /\ r \notin rtasks /\ \A c \in Clients : join[c] # r}
 
 \* the client gives the connection back (closing it first if cl): awaited release or no_wait_release
 Finish(c, mode, cl) ==
-  /\ cur = 0 /\ pc[c] = "use" /\ mode \in Modes
+  /\ pc[c] = "use" /\ mode \in Modes
   /\ cstat' = IF cl THEN [cstat EXCEPT ![tc[c]] = "dn"] ELSE cstat
   /\ uses' = [uses EXCEPT ![c] = @ + 1]
   /\ IF mode = "a"
-     THEN /\ Goto(c, "r_start") /\ UNCHANGED <<tk, tc, rtasks, nrt>>
-     ELSE LET r == N + nrt + 1 IN
-          /\ pc' = [pc EXCEPT ![c] = "idle", ![r] = "new"]
-          /\ tk' = [tk EXCEPT ![r] = tk[c]] /\ tc' = [tc EXCEPT ![r] = tc[c], ![c] = 0]
-          /\ rtasks' = rtasks \cup {r} /\ nrt' = nrt + 1
-  /\ UNCHANGED <<present, ready, busy, waiters, svars, ck, tq, tforce, cflag, cwc, why, join, cur, bvars>>
+     THEN /\ pc' = [pc EXCEPT ![c] = "r_start"] /\ UNCHANGED <<tk, tc, rtasks>>
+     ELSE /\ FreeRT # {}
+          /\ LET r == Min(FreeRT) IN
+             /\ pc' = [pc EXCEPT ![c] = "idle", ![r] = "new"]
+             /\ tk' = [tk EXCEPT ![r] = tk[c], ![c] = 0] /\ tc' = [tc EXCEPT ![r] = tc[c], ![c] = 0]
+             /\ rtasks' = rtasks \cup {r}
+  /\ UNCHANGED <<present, ready, busy, waiters, svars, ck, tq, tforce, cflag, cwc, why, join, ncancel, nkill>>
   /\ Obs
 
-\* Task.cancel() on a parked task u
+\* Task.cancel() on a suspended task u
 CancelParked(u) ==
   IF pc[u] \in LockWait
-  THEN LET l == LockOf(u) IN
+  THEN LET l == LockOf(Snap, u) IN
        IF StatIn(lock[l].q, u) = "p"
        THEN lock' = [lock EXCEPT ![l].q = SetStat(@, u, "x")] /\ UNCHANGED <<cond, cflag, pc>>
        ELSE cflag' = [cflag EXCEPT ![u] = TRUE] /\ UNCHANGED <<lock, cond, pc>>
@@ -523,38 +377,31 @@ CancelParked(u) ==
 
 CancelPending(u) ==
   \/ cflag[u]
-  \/ pc[u] \in LockWait /\ StatIn(lock[LockOf(u)].q, u) = "x"
+  \/ pc[u] \in LockWait /\ StatIn(lock[LockOf(Snap, u)].q, u) = "x"
   \/ pc[u] = "h_cw" /\ StatIn(cond[tk[u]], u) = "x"
   \/ pc[u] = "xnew"
 
 \* the task of client c is cancelled while it is suspended inside acquire() or release()
 Cancel(c) ==
-  /\ cur = 0 /\ ncancel < MaxCancel /\ pc[c] \in Parked /\ ~CancelPending(c)
+  /\ ncancel < MaxCancel /\ pc[c] \in Parked /\ ~CancelPending(c)
   /\ ncancel' = ncancel + 1
   /\ IF pc[c] = "a_join" /\ ~FixShield /\ pc[join[c]] \notin Terminal
      THEN ~CancelPending(join[c]) /\ CancelParked(join[c])      \* cancelling the awaiter cancels the awaited task
      ELSE CancelParked(c)
-  /\ UNCHANGED <<pvars, tk, tc, ck, tq, tforce, cwc, why, join, gvars, nkill, nfail>>
+  /\ UNCHANGED <<pvars, tk, tc, ck, tq, tforce, cwc, why, join, rtasks, uses, nkill>>
   /\ Obs
 
 -----------------------------------------------------------------------------
-Resume(t) == LockResume(t) \/ CondResume(t) \/ JoinResume(t) \/ Dispatch(t)
-Step(t) ==
-  \/ ADrain(t) \/ AL1(t) \/ AL1cs(t) \/ HAcq(t) \/ HLoop(t) \/ HCwl(t) \/ HGot(t) \/ AL2(t) \/ AL2cs(t) \/ ARet(t)
-  \/ XCw(t) \/ XHp(t) \/ XClean(t) \/ XFin(t)
-  \/ RtStillborn(t) \/ RStart(t) \/ RCs(t) \/ CL(t) \/ CLoop0(t) \/ CLoop(t) \/ CCs(t) \/ RRet(t)
-
-SysNextM == \E t \in Threads : Resume(t) \/ Step(t)
-EnvNextM ==
+SysNext ==
+  \E t \in Threads : \/ AcquireRuns(t) \/ JoinerResumes(t) \/ LockWaiterResumes(t) \/ CondWaiterResumes(t)
+                     \/ ReleaseRuns(t) \/ ReleaseTaskRuns(t) \/ ReleaseTaskStillborn(t)
+EnvNext ==
   \/ \E c \in Clients, k \in Keys : Start(c, k)
   \/ \E c \in Clients, ok \in BOOLEAN : Connect(c, ok)
   \/ \E x \in Conns : Kill(x)
   \/ \E c \in Clients, mode \in Modes, cl \in BOOLEAN : Finish(c, mode, cl)
   \/ \E c \in Clients : Cancel(c)
 
-
-SysNext == SysNextM
-EnvNext == EnvNextM
 Next == SysNext \/ EnvNext
 
 \* clients that hold a connection eventually give it back (needed for liveness only)
@@ -563,7 +410,7 @@ GiveBack(c) == \E mode \in Modes : Finish(c, mode, FALSE)
 Spec == Init /\ [][Next]_vars /\ WF_vars(SysNext) /\ \A c \in Clients : WF_vars(GiveBack(c))
 
 -----------------------------------------------------------------------------
-(* Properties                                                               *)
+(* Properties (besides those of ConnPoolProps)                              *)
 
 \* no task ever dies of an internal error (KeyError in release ...)
 NoError == \A t \in Threads : pc[t] # "errored"
@@ -574,9 +421,8 @@ Served == \A c \in Clients : (inAcq[c] # 0) ~> (inAcq[c] = 0)
 Drains == \A r \in RTs : (pc[r] = "new") ~> (pc[r] \in Terminal)
 
 TypeOK ==
-  /\ \A t \in Threads : pc[t] \in Parked \cup EnvWait \cup Terminal \cup NotYet \cup Running
+  /\ \A t \in Threads : pc[t] \in Parked \cup EnvWait \cup Terminal \cup NotYet \cup {"a_drain", "r_start", "new", "xnew"}
   /\ \A k \in Keys : waiters[k] \in 0..N
-  /\ cur \in 0..(N + R)
   /\ \A l \in Locks : Len(lock[l].q) <= N + R
-  /\ cur # 0 => pc[cur] \in Running
+  /\ \A c \in Clients : pc[c] = "use" => FreeRT # {}
 =============================================================================
